@@ -400,6 +400,10 @@ impl<'a, 'b> GeneratorState<'a> {
         negate: bool,
         label: &str,
     ) -> Result<(), Error> {
+        // When an indexed operand needed Y, the Y of the program is parked in cctmp
+        if self.saved_y && (*l == ExprType::Y || *r == ExprType::Y) {
+            return Err(self.compiler_state.syntax_error("Y is used both as an index and as a value in this statement. Please use an intermediate variable", pos));
+        }
         let left;
         let right;
 
